@@ -51,6 +51,9 @@ def handleStruct (st : St) (op : String) (j : Json) : Option (D (St × Json)) :=
     match k with
     | "split" => return (st, ok (Json.bool (splitGuard S d (← nat (← field j "pos")))))
     | "join" => return (st, ok (Json.bool (joinGuard S d (← nat (← field j "pos")) && textStableC S)))
+    | "lift" =>
+      return (st, ok (Json.bool (liftFlatGuard d (← nat (← field j "from")) (← nat (← field j "to"))
+        (← nat (← field j "depth")) (← nat (← field j "target")) && textStableC S)))
     | _ => throw s!"bad structGuard kind {k}"
   -- the remaining helpers (PM/Structure2.lean); `{"err":"raises"}` = the model says the code raises
   | "canJoin" => some do
